@@ -154,7 +154,7 @@ Theorem C09_launch_dir_y :
        lc_angle c = true ->
        forall (w : T ROps) (Hy : R) (Px Py vx vy : T ROps) (r : ray ROps),
        lc_pos1 c = 0%R ->
-       (0 < lc_EPD c - lc_minpos c + lc_EPL c)%R ->
+       (0 < lc_offset c + lc_EPL c)%R ->
        (0 < cos (rad (lc_maxfield c * Hy)))%R ->
        launch c w 0%R Hy Px Py vx vy = Some r ->
        rL r = 0%R /\ rM r = sin (rad (lc_maxfield c * Hy)) /\ rN r = cos (rad (lc_maxfield c * Hy)).
@@ -166,7 +166,7 @@ Theorem C09_tilt_matches_launch :
        lc_infinite c = true ->
        lc_angle c = true ->
        lc_pos1 c = 0%R ->
-       (0 < lc_EPD c - lc_minpos c + lc_EPL c)%R ->
+       (0 < lc_offset c + lc_EPL c)%R ->
        (0 < cos (rad (lc_maxfield c * Hy)))%R ->
        launch c w 0%R Hy (scaled (O:=ROps) dx vx) (scaled (O:=ROps) dy vy) vx vy = Some r ->
        launch c w 0%R Hy (scaled (O:=ROps) 0%R vx) (scaled (O:=ROps) 0%R vy) vx vy = Some r0 ->
@@ -235,7 +235,7 @@ Theorem C09_opd_definition_infinite :
        lc_infinite lc = true ->
        lc_angle lc = true ->
        lc_pos1 lc = 0%R ->
-       (0 < lc_EPD lc - lc_minpos lc + lc_EPL lc)%R ->
+       (0 < lc_offset lc + lc_EPL lc)%R ->
        (0 < cos (rad (lc_maxfield lc * Hy)))%R ->
        w_ftype wc = "angle"%string ->
        w_maxfield wc = lc_maxfield lc ->
@@ -391,3 +391,8 @@ Theorem C09_rms_vs_field_shape :
 Proof. exact rms_vs_field_shape. Qed.
 Print Assumptions C09_rms_vs_field_shape.
 
+
+Theorem C09_launch_distance_positive :
+  forall c : launchcfg ROps, (0 < lc_EPD c)%R -> (0 < lc_offset c + lc_EPL c)%R.
+Proof. exact launch_distance_positive. Qed.
+Print Assumptions C09_launch_distance_positive.
